@@ -743,3 +743,10 @@ mod tests {
         Ok(())
     }
 }
+
+/// Whether the schemata comparator cell is already set; does not initialise it. For external
+/// runtime monitors.
+#[cfg(feature = "verif-hooks")]
+pub fn verif_peek_comparator_set() -> bool {
+    SCHEMATA_COMPARATOR_ONCE.get().is_some()
+}
